@@ -104,7 +104,7 @@ class Check:
     # ------------------------------------------------------------------ finishing
     def finish(self, explanation, rule_text, trusted=None, exhaustive=True):
         wall = time.time() - self.t0
-        ev_dir = os.path.join(VERIF, "evidence")
+        ev_dir = os.environ.get("VF_EVIDENCE_DIR") or os.path.join(VERIF, "evidence")
         os.makedirs(ev_dir, exist_ok=True)
         replay_dir = os.path.join(ev_dir, "replay", self.prop)
         lines = []
@@ -155,7 +155,7 @@ class Check:
             "wall_s": round(wall, 3),
             "violations": len(self.violations),
         }
-        if not self.only_key:
+        if not self.only_key and not os.environ.get("VF_NO_EVIDENCE"):
             with open(os.path.join(ev_dir, f"{self.prop}.json"), "w") as f:
                 json.dump(ev, f, indent=1, default=str)
         for ln in lines:
@@ -236,7 +236,7 @@ def new_interp(repo, parity=0, stub_etdrk=True, decide=generic_decide, extra_par
     ctx.decide = decide
     it = Interp(repo, ctx)
     if stub_etdrk:
-        for n in range(5):
+        for n in range(1 if stub_etdrk == "nonlinear" else 0, 5):
             ctx.stubs[f"exponax.etdrk._etdrk_{n}.ETDRK{n}.__init__"] = etdrk_stub
     return it
 
